@@ -443,7 +443,7 @@ def run(ctx):
     n = ctx.scale(3200, 4800000)
     per = min(n // nw, 12000)                 # bounded batches: a worker holds its cases and their output in memory
     ctx.pmap(worker, [(k, per, ctx.seed, ctx.quick) for k in range(max(nw, n // per))])
-    if ctx.stats.counters.get("mount_not_permitted"):
+    if ctx.stats.c.get("mount_not_permitted"):
         ctx.stats.notes.append("mounting a tmpfs inside the sandbox is not permitted here: %i of a mount point was not observed")
     for d in DIRECTIVES:
         ctx.require("directive:%" + d, 20)
